@@ -44,7 +44,12 @@ def run_generator(p, want_content=False):
         rel = [os.path.relpath(w, sc_.dir) if os.path.isabs(w) else w for w in writes]
         if want_content and exc is None and len(files) == 1:
             try:
-                content = content_probabilities(cr.read_dict_from_file(files[0]))
+                gamesd = cr.read_dict_from_file(files[0])
+                content = content_probabilities(gamesd)
+                # the board itself: regenerated from the stated seed / sizes / max reward / loose probability / flag
+                mv, rw, lo = rg.gen_rnd_board(p["seed"], p["length"], p["width"], p["p_loose"], p["max_reward"], p["force_down"])
+                flat = [x for row in rw for x in row]
+                content = content + (gamesd["game_a"]["rewards"][:len(flat)] == flat,)
             except Exception as e:
                 content = "unreadable: %r" % e
     if want_content:
@@ -58,8 +63,10 @@ def check_content(p, content):
         return []
     if isinstance(content, str):
         return [{"problem": "generated file cannot be read back: " + content}]
-    tile, robot, light = content
+    tile, robot, light, board_ok = content
     pr = []
+    if not board_ok:
+        pr.append({"problem": "the tile rewards in the file are not those of the board the stated seed, sizes, maximum reward, loose-tile probability and flag generate"})
     for nm, found, val in (("tile-break", tile, p["p_tile"]), ("robot", robot, p["p_robot"]), ("light", light, p["p_light"])):
         allowed = {val, 1 - val}
         if nm == "tile-break" and not found:
@@ -150,6 +157,8 @@ def decide_random(idx, seed0):
     problems = check_name(p, exc, writes, files)
     if len({ks["p_robot"], ks["p_light"], ks["p_tile"], 100 - ks["p_robot"], 100 - ks["p_light"], 100 - ks["p_tile"]}) == 6:
         problems += check_content(p, content)
+    elif content is not None and not isinstance(content, str) and not content[3]:
+        problems += [q for q in check_content(p, content) if "tile rewards" in q["problem"]]
     res = {"idx": idx, "verdict": "held", "tags": ["RND"], "key": repr(sorted((k, v) for k, v in p.items() if k != "_k")), "nontrivial": True,
            "stats": {"names_parsed": 1, "content_checked": int(content is not None)}}
     if problems:
